@@ -880,6 +880,9 @@ class Exec(object):
     # loops -----------------------------------------------------------------
     def loop_contract(self, node, ctx):
         c = self.reg.by_key.get(ctx.unit.key) if ctx.unit is not None else None
+        vu = getattr(self, "verified_unit", None)
+        if vu is not None and ctx.unit is not None and ctx.unit.key == vu[0]:
+            c = vu[1]                      # the contract the unit is being verified against (may be passed explicitly)
         if c is None:
             return None
         # ordinal = index of this loop among the loops of the unit in source order
@@ -1754,6 +1757,7 @@ class Exec(object):
         unit = self.repo.unit(key) if isinstance(key, str) else key
         c = contract or self.reg.by_key.get(unit.key) or Contract_default(unit.key)
         first = len(self.obligations)
+        self.verified_unit = (unit.key, c)
         self.obl_prefix = unit.key.split("::")[1] if "::" in unit.key else unit.key
         # synthetic frames for the enclosing units (closure environment)
         chain = []
